@@ -530,8 +530,9 @@ func c155b(c *an.Ctx, p *an.Prog, x *fsx, rule string) {
 					bad = append(bad, "success returned although the rename may have failed (path "+s.BlockPath()+")")
 				}
 			}
-			// nothing (deferred cleanups included) unlinks the final name again on a successful exit
-			if k == "success" {
+			// nothing (deferred cleanups included) unlinks the final name again on an exit that is, or may be, a
+			// success (a cleanup that depends on the outcome splits the path: its failure side is an "error" exit)
+			{
 				dst := s.Events[idx].Args[1]
 				all := expandedEvents(s)
 				pos := indexOfInstr(all, ren)
